@@ -655,11 +655,10 @@ func judgeStruct(call caller, sch *ref.Schema, sess *drv.Session, se structExp) 
 			}
 			if d, ok := defs[f.ID]; ok {
 				if f.Type.Kind == ref.Binary {
-					// the driver leaves absent slices nil: a binary field with a default then HOLDS the empty
-					// value (Go has no separate "unset" for it), which is set iff the default is not empty
-					z := ref.Zero(f.Type)
-					set := !sameScalar(z, d)
-					return z, &set, true
+					// the driver keeps the constructor's value in an absent binary field that has a
+					// default (nil would mean "set to empty"): unset = holds the default, not set
+					no := false
+					return d, &no, true
 				}
 				if ref.IsScalar(f.Type) {
 					no := false
